@@ -287,8 +287,7 @@ class Future(BaseFuture):
 
         if isinstance(other, RegFuture):
             # a register outcome is an `int` on the host, but here its register is meant
-            assert other.reg is not None, "Trying to use RegFuture that has no value yet"
-            other = other.reg
+            other = other._as_operand()
 
         # Store self in a temporary register
         tmp_register = self.builder._mem_mgr.get_inactive_register(activate=True)
@@ -368,10 +367,7 @@ class Future(BaseFuture):
             commands += access_index_cmds
             index: Union[int, operand.Register] = tmp_register
         elif isinstance(self._index, RegFuture):
-            assert (
-                self._index.reg is not None
-            ), "Trying to use RegFuture that has no value yet"
-            index = self._index.reg
+            index = self._index._as_operand()
         elif isinstance(self._index, int) or isinstance(self._index, operand.Register):
             index = self._index
         else:
@@ -395,11 +391,7 @@ class Future(BaseFuture):
         """Convert this Future to an ArrayEntry object to be used an instruction
         operand."""
         if isinstance(self._index, RegFuture):
-            assert self._index.reg is not None, (
-                f"cannot use RegFuture {self._index} as array index since "
-                f"it does not yet have a value"
-            )
-            return ArrayEntry(Address(self._address), self._index.reg)
+            return ArrayEntry(Address(self._address), self._index._as_operand())
         elif isinstance(self._index, int) or isinstance(self._index, operand.Register):
             return ArrayEntry(Address(self._address), self._index)
         else:
@@ -426,9 +418,21 @@ class RegFuture(BaseFuture):
         """
         super().__init__(connection=connection)
         self._reg: Optional[operand.Register] = reg
+        # Set once the subroutine that computes this value has run and the value has
+        # been read: the register may be used for something else afterwards.
+        self._settled: bool = False
 
     @property
     def reg(self) -> Optional[operand.Register]:
+        return self._reg
+
+    def _as_operand(self) -> Union[int, operand.Register]:
+        """What stands for this value in a subroutine that is being built: its
+        register, or the value itself when an earlier subroutine already computed it
+        (a later subroutine gets the same M registers for its own outcomes)."""
+        if self._settled and self._value is not None:
+            return self._value
+        assert self._reg is not None, "Trying to use RegFuture that has no value yet"
         return self._reg
 
     @reg.setter
@@ -467,8 +471,7 @@ class RegFuture(BaseFuture):
 
         if isinstance(other, RegFuture):
             # a register outcome is an `int` on the host, but here its register is meant
-            assert other.reg is not None, "Trying to use RegFuture that has no value yet"
-            other = other.reg
+            other = other._as_operand()
 
         # Store self in a temporary register
         load_commands = []
